@@ -108,3 +108,26 @@ for _p in ("C07", "C08", "C09", "C10", "C11", "C12", "C15", "C18"):
     ENGINES[0]["serves_properties"].append(_p)
 
 FIX_COMMITS += ["884e9ec", "8882d88", "e44ca7b", "fd434c6"]
+
+# ---- round-3/4 extensions (DESIGN section 3.1): appended to the claims so that the manifest says what the commands do now
+_EXT = {
+    "C01": " Also: names sorting after / among the generated ones, names inside the generator's namespace, routes through a dictionary / YAML round trip between stages, a written-and-read-back copy restructured next to the original (alias route), graphs derived from source and bytecode families (loops ending a branch arm, multi-exit loops followed by branching code), and one edit step from a directly built state with a branching synthetic predecessor (space C: every value-table surjection, adversarial target names, used name generators) read through a walk map. A stage that raises is reported here too.",
+    "C02": " Also: parametric scale families with a solver-chosen size (chains to 1,100 blocks, diamond chains to 36, nested loops, loop sequences, ladders) for the 'terminates' half, and reload routes.",
+    "C03": " Also: the continuations a region really has (targets of its inner blocks that lie outside it) must be declared by it; name schemes, reload routes, source/bytecode-derived families as C01.",
+    "C04": " Also: name schemes, reload and alias routes (name clashes after a round trip between stages), source/bytecode-derived families as C01.",
+    "C05": " Also: name schemes incl. the generator's namespace with indices of different digit counts, reload routes, source/bytecode-derived families as C01.",
+    "C06": " Also: edit-step space C (tables after every primitive with a branching synthetic predecessor), alias route (tables of the source graph after a copy was restructured), name schemes and routes as C01.",
+    "C07": " Also: bodies in which a loop / if ends an arm, loop-in-arm and multi-exit-loop-then-branching families, names bound only in dead code (finding D18), and the round trip through the other input forms / repeated in the same process.",
+    "C08": " Also: the same added program families as C07, and the graph obtained through the source-string and function-object forms, each converted twice in the process.",
+    "C09": " Also: EXTENDED_ARG prefixes in the streams (a solver boolean per instruction under a cardinality cap) and compiled functions whose jumps / constants need them.",
+    "C10": " Also: a second generation from the same graph and a generation through one SCFG2ASTTransformer object shared by all programs of a worker process; the added program families of C07.",
+    "C12": " Also: keyed sorted/min/max and reduce as iteration sites, name schemes without digits / with shared indices / differing in zero padding, the shape-directed family 'two headers entered from two blocks' (N=5).",
+    "C13": " Also: digraphs whose blocks declare a back edge (queries defined over the remaining arcs) and live-object histories: one SCFG object edited into the next digraph through its public mapping and through add_block/remove_blocks, queried after each edit.",
+    "C14": " Also: space C - a directly built branching synthetic predecessor (3 block types, every surjective value table, target names in every order relative to each other and to generated names, generated-looking feeder names with indices of different digit counts, name generator counters at 0/8/9) x every primitive x every ordered successor selection, control insertion twice.",
+    "C15": " Also: numeric and z names, consistency of the re-read hierarchy (C04 oracle), and no state shared between source graph, dictionary and re-read graph (the copy is restructured further, the source must not change).",
+    "C16": " Also: flat hand-built digraphs with doubled arcs and self loops, name schemes and reload routes as C01.",
+    "C17": " Also: name schemes and reload routes as C01; several graphs per process (renderer state between calls shows through the history-aware replay).",
+    "C18": "",
+}
+for _p, _t in _EXT.items():
+    CHECKS[_p]["text"] += _t
